@@ -83,6 +83,7 @@ def analyse(src, opts, minify, preserve_locals=None, preserve_globals=None):
         return fail(('output-not-compilable', norm_msg(c)), {'out': out[:1500], 'error': c})
     B = _parse(base)
     R = _parse(out)
+    out_module_bound = set(scopes.Resolver(_parse(out)).module_bound)
     if want_posargs:
         d = strict_ast.diff(merge_posargs(_parse(out)), _parse(out_full))
         if d is not None:
@@ -119,6 +120,7 @@ def analyse(src, opts, minify, preserve_locals=None, preserve_globals=None):
     f['_B'] = B
     f['_R2'] = R2
     f['_R'] = R
+    f['_out_module_bound'] = out_module_bound
     return f
 
 
@@ -227,7 +229,7 @@ def check_interface(f, opts):
     # module level
     resR2 = f['_resR2']
     bm = set(resB.module_bound)
-    rm = set(scopes.Resolver(f['_R']).module_bound)
+    rm = set(f['_out_module_bound'])   # of the output as printed (the aligned tree has had its constant aliases inlined)
     if not opts.get('rename_globals'):
         missing = bm - rm
         if missing:
